@@ -19,3 +19,5 @@ done
 echo "== check $PROP ($TIER)"
 cd /verif && VERIF_REPO=$WT ./check $PROP --tier $TIER 2>&1 | tail -4
 git -C /repo worktree remove --force $WT
+# scratch outputs and binaries built against the worktree
+find /verif/.work -maxdepth 2 -regextype posix-extended -regex '.*-[0-9a-f]{8}' -exec rm -rf {} + 2>/dev/null
